@@ -127,8 +127,13 @@ class Lab:
         gen = os.path.join(self.mod, "gen", "p%d" % k)
         res = {"accepted": True, "rc": 0, "out": "", "crashed": False, "compile_rejected": False}
         for flags, rel in runs:
-            rc, out = vlib.run([self.thriftrw, "--out", gen, "--pkg-prefix", "labmod/gen/p%d" % k, "--thrift-root", idl,
-                                "--no-version-check"] + list(flags) + [os.path.join(idl, rel)], cwd=self.mod, timeout=120)
+            flags = list(flags)
+            root = ["--thrift-root", idl]
+            if "--DEFAULT-THRIFT-ROOT" in flags:          # let the tool find the common ancestor of the files itself
+                flags.remove("--DEFAULT-THRIFT-ROOT")
+                root = []
+            rc, out = vlib.run([self.thriftrw, "--out", gen, "--pkg-prefix", "labmod/gen/p%d" % k] + root +
+                               ["--no-version-check"] + flags + [os.path.join(idl, rel)], cwd=self.mod, timeout=120)
             if rc != 0:
                 res.update(accepted=False, rc=rc, out=out[-1500:])
                 res["crashed"] = rc not in (0, 1) or "panic:" in out or "goroutine " in out or "runtime error" in out
@@ -328,6 +333,23 @@ def family_cases(ctx):
                     "base.thrift": "struct B { 1: optional i32 v }\n"})
     add("rootbelow", {"deep/er/prog.thrift": 'include "../../top.thrift"\nstruct U { 1: optional top.T t }\n', "top.thrift": "struct T { 1: optional i32 v }\n"},
         runs=[([], "deep/er/prog.thrift")], primary="deep/er/prog")
+    # no --thrift-root: the root is the deepest common ancestor of all files, also when one directory name is a string
+    # prefix of a sibling's (api / api_v2), in both directions, and when the root file is the deepest or the shallowest one
+    for a, b in (("api", "api_v2"), ("api_v2", "api"), ("common", "common2"), ("v1", "v10"), ("v10", "v1"), ("x", "y")):
+        add("ancestor-%s-%s" % (a, b), {"%s/prog.thrift" % a: 'include "../%s/types.thrift"\nstruct U { 1: optional types.T t }\nservice S { types.T get() }\n' % b,
+                                        "%s/types.thrift" % b: "struct T { 1: optional i32 v }\n"},
+            runs=[(["--DEFAULT-THRIFT-ROOT"], "%s/prog.thrift" % a)], primary="%s/prog" % a)
+    add("ancestor-deep", {"a/b/c/prog.thrift": 'include "../../types.thrift"\ninclude "../c2/more.thrift"\nstruct U { 1: optional types.T t, 2: optional more.M m }\n',
+                          "a/types.thrift": "struct T { 1: optional i32 v }\n", "a/b/c2/more.thrift": "struct M { 1: optional i32 v }\n"},
+        runs=[(["--DEFAULT-THRIFT-ROOT"], "a/b/c/prog.thrift")], primary="b/c/prog")
+    add("ancestor-single", {"only/prog.thrift": "struct U { 1: optional i32 v }\n"}, runs=[(["--DEFAULT-THRIFT-ROOT"], "only/prog.thrift")], primary="prog")
+    # names made of underscores only, empty go.name: an error or a result, never a crash
+    for k, body in enumerate(["struct _ { 1: optional i32 v }\n", "struct __ { 1: optional i32 v }\n", "service _ { void ping() }\n", "service S { void _() }\n",
+                              "service S { void f(1: i32 _) }\n", "struct S { 1: optional i32 _ }\n", "enum _ { A }\n", "enum E { _ }\n", "typedef i32 _\n", "const i32 _ = 1\n",
+                              'struct Foo { 1: optional string bar } (go.name = "")\n', 'service S { void f(1: string a (go.name = "")) }\n',
+                              'struct Foo { 1: optional string bar (go.name = "") }\n', 'enum E { A (go.name = "") }\n', 'typedef i32 T (go.name = "")\n',
+                              'struct Foo {} (go.name = "__")\n', 'union _u_ { 1: i32 _a_ }\nexception __x { 1: optional i32 a__ }\n']):
+        add("underscore-%d" % k, {"prog.thrift": body}, expect="any")
     # enums
     add("enum-dup-values", {"prog.thrift": "enum E { A = 1, B = 1, C = 2 }\nstruct S { 1: optional E e = E.C }\n"})
     add("enum-dup-values-2", {"prog.thrift": "enum E { A = 0, B = 0, C = 0, D = 5, F = 5, G = 7 }\nconst E c = E.G\n"})
